@@ -728,6 +728,13 @@ class HistoryWorld:
                 return 'lost'
             text = op['bdt'][1] if op.get('bdt') else op['text']
             new = EM.node_from_text(kind, node.key, text, ec)
+            if kind == 'fld' and node.tag and node.tag.get('datatype'):
+                # the field was built with an overridden datatype: components past the end of that
+                # datatype have no name and no position in the library (they are kept in arrival
+                # order), so the positional model does not speak about such a text
+                st = T.datatype_struct(sut.meta[ri]['version'], node.tag['datatype'])
+                if any(c.key > (len(st) if st else 1) for c in new.kids):
+                    return 'lost'
             node.kids = new.kids
             return done()
         if k == 'detach':
@@ -820,8 +827,8 @@ class HistoryWorld:
                     break
                 op = ops[step]
             else:
-                if step >= max_ops:
-                    break
+                if step >= max_ops and not (self.gen.pending and step < max_ops + 6):
+                    break              # (a directed follow-up sequence is not cut in the middle)
                 op = self.gen.next_op(self, step)
                 if op is None:
                     break
